@@ -14,12 +14,27 @@ from .arms import switch_arm_stmts
 SIZED_BY_CHANNELS = ('peak_info_calloc', 'wavlike_read_peak_chunk')
 
 
+def sized_by_channels(prog):
+    """functions that allocate a per-channel table from psf->sf.channels -> the handle field that receives it"""
+    out = {'peak_info_calloc': 'peak_info', 'wavlike_read_peak_chunk': 'peak_info'}
+    for g in prog.lib_fns():
+        for lv, a, r in assigned_lvalues(g):
+            if r is None or not lv.startswith('psf->') or a.get('op') != '=':
+                continue
+            for c in g.calls(root=r):
+                if c.get('callee') in ('calloc', 'malloc', 'peak_info_calloc') and any('psf->sf.channels' in g.s(x) for x in g.args(c)):
+                    if not g.name.endswith('_read_header') and not g.name.startswith('sf_') and g.name not in ('psf_open_file',):
+                        out[g.name] = lv.split('->')[-1]
+    return out
+
+
 def fmt_first(ctx, prog, eff, rule='FMT-FIRST'):
     n_inst = 0
     for f in sorted(prog.lib_fns(), key=lambda f: (f.file, f.line)):
         if not f.name.endswith('_read_header'):
             continue
-        allocs = [c for c in f.calls() if c.get('callee') in SIZED_BY_CHANNELS]
+        sized = sized_by_channels(prog)
+        allocs = [c for c in f.calls() if c.get('callee') in sized]
         if not allocs:
             continue
         setters = []
@@ -64,8 +79,8 @@ def fmt_first(ctx, prog, eff, rule='FMT-FIRST'):
                 M2 = r.get('v')
                 if S not in bits or M is None or M2 is None:
                     continue
-                if not any(x['k'] == 'ReturnStmt' for x in f.walk(n['then'])):
-                    continue
+                if not any(x['k'] in ('ReturnStmt', 'BreakStmt', 'ContinueStmt', 'GotoStmt') for x in f.walk(n['then'])):
+                    continue            # the then-branch must leave the arm (error return, or skip the chunk and break)
                 B = bits[S]
                 if (M & B) == B and (M2 & B) == B:
                     ok = True
@@ -81,33 +96,34 @@ def fmt_first(ctx, prog, eff, rule='FMT-FIRST'):
             lp = [a for a in f.ancestors(s_) if a['k'] in LOOPS]
             if not lp or not any(f.within(c, lp[-1]) for c in allocs):
                 continue
-            n_inst += 1
-            key = '%s:again:%s' % (f.name, f.s(s_)[:40].replace(' ', ''))
-            why = None
-            for n in f.walk(lp[-1]):
-                if n['k'] != 'IfStmt' or n.get('then') is None or not f.cfg.dominates(n, s_) and not any(f.cfg.dominates(x, s_) for x in f.walk(n['cond'])):
-                    continue
-                cn = f.unwrap(f.N[n['cond']])
-                if cn.get('k') == 'BinaryOperator' and cn.get('op') == '&' and f.s(f.N[cn['kids'][0]]) in bits:
-                    S = f.s(f.N[cn['kids'][0]])
-                    M = f.unwrap(f.N[cn['kids'][1]]).get('v')
-                    if M is not None and (M & bits[S]) and (M & ~bits[S]) == 0 and any(x['k'] in ('BreakStmt', 'ReturnStmt', 'ContinueStmt') for x in f.walk(n['then'])):
-                        why = 'a repeated chunk is left alone: `if (%s)` leaves before the channel count is parsed again' % f.s(cn)[:50]
-                        break
-            if why is None and s_['k'] == 'CallExpr' and s_.get('callee'):
-                seen_, todo_ = set(), [s_['callee']]
-                while todo_ and why is None:
-                    g_ = todo_.pop()
-                    if g_ in seen_ or g_ not in prog.fns:
+            for tfield in sorted({sized[c['callee']] for c in allocs if f.within(c, lp[-1])}):
+                n_inst += 1
+                key = '%s:again:%s:%s' % (f.name, f.s(s_)[:40].replace(' ', ''), tfield)
+                why = None
+                for n in f.walk(lp[-1]):
+                    if n['k'] != 'IfStmt' or n.get('then') is None or not f.cfg.dominates(n, s_) and not any(f.cfg.dominates(x, s_) for x in f.walk(n['cond'])):
                         continue
-                    seen_.add(g_)
-                    for gf in prog.fns[g_] if isinstance(prog.fns[g_], list) else [prog.fns[g_]]:
-                        for c_ in gf.calls():
-                            if c_.get('callee') == 'free' and gf.s(gf.unwrap(gf.args(c_)[0])).endswith('peak_info'):
-                                why = '%s discards the existing table (free (%s)) when it parses the channel count' % (g_, gf.s(gf.unwrap(gf.args(c_)[0])))
-                                break
-                            if c_.get('callee') and len(seen_) < 6:
-                                todo_.append(c_['callee'])
-            ctx.ob(rule, key, why is not None, f.loc(s_), why or 'the channel count can be parsed again after the per-channel table was allocated (a second format chunk): nothing stops it and nothing '
-                   'discards the table, so a larger channel count makes every reader of peaks [0..channels) run off the block', None)
+                    cn = f.unwrap(f.N[n['cond']])
+                    if cn.get('k') == 'BinaryOperator' and cn.get('op') == '&' and f.s(f.N[cn['kids'][0]]) in bits:
+                        S = f.s(f.N[cn['kids'][0]])
+                        M = f.unwrap(f.N[cn['kids'][1]]).get('v')
+                        if M is not None and (M & bits[S]) and (M & ~bits[S]) == 0 and any(x['k'] in ('BreakStmt', 'ReturnStmt', 'ContinueStmt') for x in f.walk(n['then'])):
+                            why = 'a repeated chunk is left alone: `if (%s)` leaves before the channel count is parsed again' % f.s(cn)[:50]
+                            break
+                if why is None and s_['k'] == 'CallExpr' and s_.get('callee'):
+                    seen_, todo_ = set(), [s_['callee']]
+                    while todo_ and why is None:
+                        g_ = todo_.pop()
+                        if g_ in seen_ or g_ not in prog.fns:
+                            continue
+                        seen_.add(g_)
+                        for gf in prog.fns[g_] if isinstance(prog.fns[g_], list) else [prog.fns[g_]]:
+                            for c_ in gf.calls():
+                                if c_.get('callee') == 'free' and gf.s(gf.unwrap(gf.args(c_)[0])).endswith(tfield):
+                                    why = '%s discards the existing table (free (%s)) when it parses the channel count' % (g_, gf.s(gf.unwrap(gf.args(c_)[0])))
+                                    break
+                                if c_.get('callee') and len(seen_) < 6:
+                                    todo_.append(c_['callee'])
+                ctx.ob(rule, key, why is not None, f.loc(s_), why or 'the channel count can be parsed again after the per-channel table was allocated (a second format chunk): nothing stops it and nothing '
+                       'discards the table, so a larger channel count makes every reader of psf->%s [0..channels) run off the block' % tfield, None)
     ctx.require(n_inst >= 4, 'only %d channel-sized allocations found in header readers' % n_inst)
